@@ -108,10 +108,14 @@ Section WithUri.
     end.
 
   (* unterminated line: one trailing CR is not counted / not presented (F1, F2) *)
-  Definition strip_cr (s : bytes) : bytes :=
-    match rev s with
-    | b :: t => if N.eqb b CR then rev t else s
-    | [] => s
+  Fixpoint strip_cr (s : bytes) : bytes :=
+    match s with
+    | [] => []
+    | b :: t =>
+      match t with
+      | [] => if N.eqb b CR then [] else [b]
+      | _ => b :: strip_cr t
+      end
     end.
 
   Definition set_phase (st : req_state) (p : rphase) : req_state :=
